@@ -704,7 +704,8 @@ class Parallel2dGeometry(ParallelBeamGeometry):
         return Parallel2dGeometry(apart, dpart,
                                   det_pos_init=self._det_pos_init_arg,
                                   det_axis_init=self._det_axis_init_arg,
-                                  translation=self.translation)
+                                  translation=self.translation,
+                                  check_bounds=self.check_bounds)
 
 
 class Parallel3dEulerGeometry(ParallelBeamGeometry):
@@ -1469,7 +1470,8 @@ class Parallel3dAxisGeometry(ParallelBeamGeometry, AxisOrientedGeometry):
                                       axis=self.axis,
                                       det_pos_init=self._det_pos_init_arg,
                                       det_axes_init=self._det_axes_init_arg,
-                                      translation=self.translation)
+                                      translation=self.translation,
+                                      check_bounds=self.check_bounds)
 
     # Manually override the abstract method in `Geometry` since it's found
     # first
